@@ -92,13 +92,21 @@ def build(bits, width):
     gamma.set_handler(h)
     if gamma_disabled:
         gamma.disable()
+    g2 = gamma.create_sub_command("g2")                 # a chain of commands that define no option of their own
+    g2.set_handler(h)
+    g3 = g2.create_sub_command("g3")
+    g3.set_description("Deep one")
+    g3.set_handler(h)
     return ConsoleApplication(cfg), calls
 
 
-def _render(component, width):
+def _render(component, width, indentation=0):
     io = BufferedIO()
     io.set_terminal_dimensions(Rectangle(width, 30))
-    component.render(io)
+    if indentation:
+        component.render(io, indentation)
+    else:
+        component.render(io)
     return io.fetch_output()
 
 
@@ -186,10 +194,27 @@ def _help_case(bits, width):
     return s0 == 0 and o0 == _render(ApplicationHelp(app), width) and not calls
 
 
-def _inherited_case(bits, width):
+def _inherited_case(bits, width, ind=0):
     (sub1_hidden, sub2_disabled, beta_hidden, gamma_disabled, d_alpha, d_opt, d_arg, d_par, mode_opt, opt_default, mode_par, arg_multi, arg_default, long_pref) = bits
     app, calls = build(bits, width)
     alpha = app.get_command("alpha")
+    # ---- pages rendered with an indentation of their own still fit the terminal and list the same elements
+    if ind:
+        for comp in (ApplicationHelp(app), CommandHelp(alpha), CommandHelp(alpha.get_sub_command("sub1"))):
+            page = _render(comp, width, ind)
+            if not _fits(page, width) or _flat(page) != _flat(_render(comp, width)) and any(w not in _flat(page) for w in ("--help", "--quiet")):
+                return False
+    # ---- a command three levels deep whose ancestors define no options: the global options are inherited all the same
+    g3 = app.get_command("gamma").get_sub_command("g2").get_sub_command("g3")
+    raw_page = _render(CommandHelp(g3), width)
+    page = _flat(raw_page)
+    for label in ("--help", "-h", "--quiet", "-q", "--verbose", "--version", "--ansi", "--no-ansi", "--no-interaction", "-n"):
+        if label not in page:
+            return False
+    s1, o1, e1 = _run(app, ["help", "gamma", "g2", "g3"])
+    s2, o2, e2 = _run(app, ["gamma", "g2", "g3", "--help"])
+    if (s1, s2) != (0, 0) or o1 != raw_page or o2 != raw_page or calls:
+        return False
     # ---- a sub-command without parameters of its own: everything it lists is inherited
     if not sub2_disabled:
         sub2 = alpha.get_sub_command("sub2")
@@ -220,13 +245,13 @@ def _inherited_case(bits, width):
     return True
 
 
-def pages_inherited(b1: bool, d_arg: int, d_par: int, mode_par: int, opt_default: bool, long_pref: bool) -> bool:
+def pages_inherited(b1: bool, d_arg: int, d_par: int, mode_par: int, opt_default: bool, long_pref: bool, ind: int) -> bool:
     """
-    pre: 0 <= d_arg <= 3 and 0 <= d_par <= 3 and 0 <= mode_par <= 3
+    pre: 0 <= d_arg <= 3 and 0 <= d_par <= 3 and 0 <= mode_par <= 3 and ind == PART["ind"]
     post: _
     """
     bits = (False, conc_bool(b1), False, False, 1, 1, conc_int(d_arg, 0, 3), conc_int(d_par, 0, 3), 1, conc_bool(opt_default), conc_int(mode_par, 0, 3), False, False, conc_bool(long_pref))
-    return untraced(_inherited_case, bits, PART["width"])
+    return untraced(_inherited_case, bits, PART["width"], [0, 2, 8][conc_int(ind, 0, 2)])
 
 
 def pages(b0: bool, b1: bool, b2: bool, b3: bool, d_alpha: int, d_opt: int, d_arg: int, d_par: int, mode_opt: int, opt_default: bool, mode_par: int,
@@ -286,9 +311,9 @@ def conditions(tier):
                               "part": {"width": w, "d_alpha": d_alpha, "d_par": d_par, "mode_par": mode_par, "hide": hide, "long_pref": lp},
                               "bounds": "terminal width %d; parent description kind %d, parent option description kind %d / value mode %d; %s; symbolic: option/argument description kinds, child option value mode, defaults, multi-valued argument, name preference" % (
                                   w, d_alpha, d_par, mode_par, "hidden/disabled bits symbolic" if hide is None else "hidden sub1/disabled sub2/hidden beta/disabled gamma = %r" % (hide,))})
-    for w in widths:
-        conds.append({"name": "pages_inherited[w=%d]" % w, "fn": pages_inherited, "timeout": t, "part": {"width": w},
-                      "bounds": "terminal width %d; pages of a sub-command that has no parameters of its own (all inherited) and of a sub-command named 'help', directly and through both help routes; symbolic: description kinds of the inherited argument and option, its value mode, default, name preference, sub-command disabled" % w})
+    for w, ind in [(w_, i_) for w_ in widths for i_ in range(3)]:
+        conds.append({"name": "pages_inherited[w=%d,indent=%d]" % (w, [0, 2, 8][ind]), "fn": pages_inherited, "timeout": t, "part": {"width": w, "ind": ind},
+                      "bounds": "terminal width %d; pages rendered with an indentation of %d; a command three levels deep below option-less parents; pages of a sub-command that has no parameters of its own (all inherited) and of a sub-command named 'help', directly and through both help routes; symbolic: description kinds of the inherited argument and option, its value mode, default, name preference, sub-command disabled" % (w, [0, 2, 8][ind])})
     for lo, hi in ([(30, 110)] if quick else [(30, 120), (121, 210), (211, 300)]):
         conds.append({"name": "paragraph_width[%d..%d]" % (lo, hi), "fn": paragraph_width, "timeout": t, "part": {"lo": lo, "hi": hi},
                       "bounds": "Paragraph and LabeledParagraph: every width in [%d,%d], indentation {0,4,8}, {1,12,40} words" % (lo, hi)})
